@@ -21,6 +21,7 @@ _MODE = {'float': 'R'}
 def set_float_mode(mode):
     assert mode in ('R', 'F')
     _MODE['float'] = mode
+    symx.FLOAT_MODE['mode'] = mode
 
 
 def float_mode():
@@ -117,7 +118,10 @@ def _cast_scalar(x, dt):
             if isinstance(x, (int, Fraction)):
                 return float(x)
             if isinstance(x, SymInt):
-                return SymF64(symx._lift_f64(x))
+                # an integer below 2**53 is exactly representable; it stays an exact
+                # integer term (sums and differences of such values are exact too) and is
+                # converted to a Float64 term only when it meets a non-integer operation
+                return x
             return x
     return x
 
@@ -559,14 +563,17 @@ def _truediv(a, b):
                 raise ShimGap('numpy division by zero (inf/nan)')
         return a / b
     else:
-        if isinstance(a, SymInt):
-            a = SymF64(symx._lift_f64(a))
-        if isinstance(b, SymInt):
-            b = SymF64(symx._lift_f64(b))
         if isinstance(a, (int, Fraction)):
             a = float(a)
         if isinstance(b, (int, Fraction)):
             b = float(b)
+        if isinstance(a, Sym) or isinstance(b, Sym):
+            # numpy array division: IEEE semantics, x/0 = inf (warning, no exception)
+            return symx.wrapf(symx.z3.fpDiv(symx._rne(), symx._lift_f64(a), symx._lift_f64(b)))
+        if b == 0:
+            if a == 0 or a != a:
+                return float('nan')
+            return float('inf') if (a > 0) == (str(b)[0] != '-') else float('-inf')
         return a / b
 
 
